@@ -183,6 +183,12 @@ func (s *reportSim) RunCycle() int {
 		return 0
 	}
 
+	// a battle between several warriors is decided once fewer than two of
+	// them are alive: do not keep running the survivor
+	if s.warriorCount > 1 && s.warriorLivingCount < 2 {
+		return s.warriorLivingCount
+	}
+
 	if s.warriorIndex == 0 {
 		s.Report(Report{Type: CycleStart, Cycle: int(s.cycleCount)})
 	}
